@@ -36,7 +36,7 @@ PROPS = {
     },
     "C04": {
         "level": "exploration", "quick_s": 30, "thorough_s": 600, "thorough_seeds": 4,
-        "rule": "exclusive gateway with 1..4 conditional flows, default absent or at any list position, truth assignment drawn per condition, expr / XPath / data-object conditions, 1..3 tokens arriving concurrently through a parallel fork; distinct = schedule hash; non-trivial = at least one context switch",
+        "rule": "exclusive gateway with 1..4 conditional flows, default absent or at any list position, truth assignment drawn per condition, expr / XPath / data-object conditions, 1..3 tokens arriving concurrently through a parallel fork; distinct = schedule hash; non-trivial = at least one context switch Further strata: several tokens reaching the gateway over one incoming flow (behind a merge); informal condition expressions; a token that passes two gateways with a task that stores nothing in between while a sibling task changes the variable the second gateway reads.",
     },
     "C05": {
         "level": "exploration", "quick_s": 30, "thorough_s": 600, "thorough_seeds": 4,
@@ -48,37 +48,37 @@ PROPS = {
     },
     "C02": {
         "level": "exploration", "quick_s": 35, "thorough_s": 900, "thorough_seeds": 4,
-        "rule": "processes with 1..3 start events (separate ends / exclusive merge / parallel join of the start branches), started by StartAll, by sequential StartWith or by concurrent StartWith goroutines, sometimes only a subset; 1..3 WaitUntilComplete clients, each optionally delayed, with a deadline that expires (then waiting again) and with repeated calls; answers optionally delayed in simulated time so that deadlines expire mid-flight; oracle: token game + per-call return/outcome stamps + position of CeaseFlowTrace; distinct = schedule hash; non-trivial = >1 start event or >1 waiter and a context switch",
+        "rule": "processes with 1..3 start events (separate ends / exclusive merge / parallel join of the start branches), started by StartAll, by sequential StartWith or by concurrent StartWith goroutines, sometimes only a subset; 1..3 WaitUntilComplete clients, each optionally delayed, with a deadline that expires (then waiting again) and with repeated calls; answers optionally delayed in simulated time so that deadlines expire mid-flight; oracle: token game + per-call return/outcome stamps + position of CeaseFlowTrace; distinct = schedule hash; non-trivial = >1 start event or >1 waiter and a context switch Further stratum: every start branch forks (parallel gateway, no join) into branches that end at an end event or silently at a node without outgoing flow, optionally with a subscriber that pauses on every trace.",
     },
     "C07": {
         "level": "exploration", "quick_s": 40, "thorough_s": 900, "thorough_seeds": 4,
-        "rule": "C01-style programs (all gateway kinds, loops, sub-processes, conditional tasks) with some tasks never answered; fault = context cancellation when the k-th trace has been observed (k drawn in 1..90, or only after the instance came to rest); after the cancel the simulator runs to quiescence and the exact live-goroutine table, Tracer().Done(), subscriber channel closure, waiter returns and late TaskTraces are checked; distinct = schedule hash; non-trivial = cancel fired and a context switch",
+        "rule": "C01-style programs (all gateway kinds, loops, sub-processes, conditional tasks) with some tasks never answered; fault = context cancellation when the k-th trace has been observed (k drawn in 1..90, or only after the instance came to rest); after the cancel the simulator runs to quiescence and the exact live-goroutine table, Tracer().Done(), subscriber channel closure, waiter returns and late TaskTraces are checked; distinct = schedule hash; non-trivial = cancel fired and a context switch Further families: catch events, event-based gateways and boundary events with events in flight (C11/C06/C10 generators); 1..2 timer catch events on a mock clock that is jumped 0..3 times; process sets (C18 generator) cancelled at trace k; start events with a second outgoing flow.",
         "oracle": "exact live-goroutine table of the simulator + tracer/subscriber/waiter shutdown observations",
     },
     "C09": {
         "level": "exploration", "quick_s": 35, "thorough_s": 900, "thorough_seeds": 4,
-        "rule": "(a) pkg/tracing alone: 1..8 sender goroutines x 1..6 traces each, 1..4 subscribers with buffer 0..4 that subscribe late, consume lazily and unsubscribe after k traces or stay until termination, optional relay; (b) engine runs of C01-style programs with 2..3 subscribers of the process tracer: causality grammar (flows announced before they appear, visit before leave, nothing after termination) and identical sequences; distinct = schedule hash; non-trivial = >1 subscriber (a) or a forking run (b), with a context switch",
+        "rule": "(a) pkg/tracing alone: 1..8 sender goroutines x 1..6 traces each, 1..4 subscribers with buffer 0..4 that subscribe late, consume lazily and unsubscribe after k traces or stay until termination, optional relay; (b) engine runs of C01-style programs with 2..3 subscribers of the process tracer: causality grammar (flows announced before they appear, visit before leave, nothing after termination) and identical sequences; distinct = schedule hash; non-trivial = >1 subscriber (a) or a forking run (b), with a context switch Further strata: a subscriber that leaves and joins again with the same channel object; start events (of the process and of sub-processes) with a second outgoing flow.",
         "oracle": "history checks over stamped Send/Subscribe/Unsubscribe/receive events; causality grammar over the engine's trace stream",
     },
     "C08": {
         "level": "exploration", "quick_s": 35, "thorough_s": 900, "thorough_seeds": 4,
-        "rule": "T1 -> exclusive gateway reading T1's declared result (variable or data object) -> T2|T3 whose properties reference T1's results; answer history of T1: 1..3 Do calls sequential or from concurrent goroutines, declared + undeclared result fields and data outputs, error without handler / skip / exit / retry(n in 0..3) with success on attempt j or never, handler decision optionally late, never answered + task time-out, optional definition-level retries attribute; oracle: token game with error modes + call/return stamps of every Do + first-answer linearisation + visibility to the next task; distinct = schedule hash; non-trivial = a context switch",
+        "rule": "T1 -> exclusive gateway reading T1's declared result (variable or data object) -> T2|T3 whose properties reference T1's results; answer history of T1: 1..3 Do calls sequential or from concurrent goroutines, declared + undeclared result fields and data outputs, error without handler / skip / exit / retry(n in 0..3) with success on attempt j or never, handler decision optionally late, never answered + task time-out, optional definition-level retries attribute; oracle: token game with error modes + call/return stamps of every Do + first-answer linearisation + visibility to the next task; distinct = schedule hash; non-trivial = a context switch Further strata: a task without any result declaration (or with a task definition only) in front, answered with results like the others.",
     },
     "C11": {
         "level": "exploration", "quick_s": 35, "thorough_s": 900, "thorough_seeds": 4,
-        "rule": "1..3 intermediate catch events (signal / message) in sequence, in parallel, or behind a task, optionally with a catch + throw event on a branch that is never taken; event histories of 0..8 events (matching, non-matching, repeated) + the awaited ones, delivered one at a time at quiescent moments interleaved with task answers (exact listener model) or from their own goroutines at arbitrary trace counts (safety bounds only); every ConsumeEvent call is stamped; distinct = schedule hash; non-trivial = at least one event delivered and a context switch",
+        "rule": "1..3 intermediate catch events (signal / message) in sequence, in parallel, or behind a task, optionally with a catch + throw event on a branch that is never taken; event histories of 0..8 events (matching, non-matching, repeated) + the awaited ones, delivered one at a time at quiescent moments interleaved with task answers (exact listener model) or from their own goroutines at arbitrary trace counts (safety bounds only); every ConsumeEvent call is stamped; distinct = schedule hash; non-trivial = at least one event delivered and a context switch Further strata: racing deliveries that land the moment their trigger trace is observed (in the middle of engine activity) instead of at the next moment of rest; message events and definitions with operation references.",
     },
     "C14": {
         "level": "exploration", "quick_s": 45, "thorough_s": 600, "thorough_seeds": 4,
-        "rule": "a process with one multiple / parallel-multiple intermediate catch event over 1..4 signal/message definitions inside a loop (re-armed up to 3 times); event histories of 0..9 events including non-matching ones, delivered at quiescent moments interleaved with task answers; oracle: listener counting model in the token game + bounds computed from the engine's own EventObservedTrace/LeaveTrace + sequential cross-check of logic.CatchEventSatisfier over the same history; distinct = schedule hash; non-trivial = an event delivered and a context switch",
+        "rule": "a process with one multiple / parallel-multiple intermediate catch event over 1..4 signal/message definitions inside a loop (re-armed up to 3 times); event histories of 0..9 events including non-matching ones, delivered at quiescent moments interleaved with task answers; oracle: listener counting model in the token game + bounds computed from the engine's own EventObservedTrace/LeaveTrace + sequential cross-check of logic.CatchEventSatisfier over the same history; distinct = schedule hash; non-trivial = an event delivered and a context switch Further strata: events from separate goroutines (each definition once); bursts of 2..24 events handed over back to back behind a subscriber that pauses per trace; the pinned pattern partial set / filler / second partial set / completing event, then the completing event alone once the token is back (exact counting). Sequential part per invocation: every history of length 9 over 1..3 (thorough: 4) definitions for both satisfiers.",
     },
     "C06": {
         "level": "exploration", "quick_s": 30, "thorough_s": 600, "thorough_seeds": 4,
-        "rule": "event-based gateway with 2..3 alternatives (signal / message catch events, each followed by its own task and end event), optionally behind a task; event plans: non-empty sequences (length 1..4) over the competing events plus a stranger, delivered one at a time at quiescent moments (exact model) or from separate goroutines at the same moment once all alternatives are armed; later deliveries of losing events included; oracle: exactly one branch task, only for a delivered event, one determination, completion, every ConsumeEvent returns; distinct = schedule hash; non-trivial = a context switch",
+        "rule": "event-based gateway with 2..3 alternatives (signal / message catch events, each followed by its own task and end event), optionally behind a task; event plans: non-empty sequences (length 1..4) over the competing events plus a stranger, delivered one at a time at quiescent moments (exact model) or from separate goroutines at the same moment once all alternatives are armed; later deliveries of losing events included; oracle: exactly one branch task, only for a delivered event, one determination, completion, every ConsumeEvent returns; distinct = schedule hash; non-trivial = a context switch Further stratum: events delivered the moment a drawn number of alternatives has reported that it listens (racing with the arming of the gateway), the first competitor delivered once more at rest.",
     },
     "C10": {
         "level": "exploration", "quick_s": 30, "thorough_s": 600, "thorough_seeds": 4,
-        "rule": "host task with 1..2 boundary events (interrupting / non-interrupting), separate tasks and end events on the normal and on each exception path, optionally a task before the host (events before activation) or two tokens inside the host; plans: 0..4 events (matching, non-matching, repeated) interleaved with the host's answer at quiescent moments, or the answer issued immediately after an event; oracle: token game with boundary semantics; several clauses are open known findings (see known_findings.json); distinct = schedule hash; non-trivial = an event delivered and a context switch",
+        "rule": "host task with 1..2 boundary events (interrupting / non-interrupting), separate tasks and end events on the normal and on each exception path, optionally a task before the host (events before activation) or two tokens inside the host; plans: 0..4 events (matching, non-matching, repeated) interleaved with the host's answer at quiescent moments, or the answer issued immediately after an event; oracle: token game with boundary semantics; several clauses are open known findings (see known_findings.json); distinct = schedule hash; non-trivial = an event delivered and a context switch Further strata: the host re-entered through a loop (event in the first or second activation); the whole event plan handed over back to back, sequentially or from separate goroutines; sub-process hosts.",
     },
     "C13": {
         "level": "exploration", "quick_s": 30, "thorough_s": 600, "thorough_seeds": 4,
@@ -87,11 +87,11 @@ PROPS = {
     },
     "C18": {
         "level": "exploration", "quick_s": 30, "thorough_s": 600, "thorough_seeds": 4,
-        "rule": "definitions with 1..3 executable processes (0..2 tasks each, so some finish at once) or one executable process that throws to a waiting process (instantiated at its start event) and optionally to a listening catch event of a second executable process; 1..3 ProcessSet.WaitUntilComplete calls, sequential or concurrent; oracle: one token game per process instance (instances created per throw), completion iff all instances done, exactly one CeaseProcessSetTrace, wake count of the catch event; distinct = schedule hash; non-trivial = >1 process or >1 wait and a context switch",
+        "rule": "definitions with 1..3 executable processes (0..2 tasks each, so some finish at once) or one executable process that throws to a waiting process (instantiated at its start event) and optionally to a listening catch event of a second executable process; 1..3 ProcessSet.WaitUntilComplete calls, sequential or concurrent; oracle: one token game per process instance (instances created per throw), completion iff all instances done, exactly one CeaseProcessSetTrace, wake count of the catch event; distinct = schedule hash; non-trivial = >1 process or >1 wait and a context switch Further strata: block-structured process bodies; bursts of 2..7 throws; two throw events aimed at one catch event that two tokens reach behind tasks of their own.",
     },
     "C20": {
         "level": "exploration", "quick_s": 40, "thorough_s": 900, "thorough_seeds": 4, "race": True, "race_clause": "C20/data-race",
-        "rule": "(b) 1..8 generators alive at once (real muyo/sno generators through id.GetSno(), and fallback generators created at the same instant of the frozen simulated clock), 1..16 goroutines drawing 1..60 ids each from every generator under tape-driven interleaving, snapshot after a drawn number of draws followed by RestoreIdGenerator and further draws (crash/restart with durable state), occasionally 70000 draws inside one frozen time unit (sequence overflow); (a) engine runs of forking programs with the engine's real default generator, collecting FlowId/InstanceId from the traces; race build: the Go race detector sees the draws with the scheduler hand-off hidden; oracle: one set, any repeat is a violation; distinct = schedule hash; non-trivial = >1 drawing goroutine or generator",
+        "rule": "(b) 1..8 generators alive at once (real muyo/sno generators through id.GetSno(), and fallback generators created at the same instant of the frozen simulated clock), 1..16 goroutines drawing 1..60 ids each from every generator under tape-driven interleaving, snapshot after a drawn number of draws followed by RestoreIdGenerator and further draws (crash/restart with durable state), occasionally 70000 draws inside one frozen time unit (sequence overflow); (a) engine runs of forking programs with the engine's real default generator, collecting FlowId/InstanceId from the traces; race build: the Go race detector sees the draws with the scheduler hand-off hidden; oracle: one set, any repeat is a violation; distinct = schedule hash; non-trivial = >1 drawing goroutine or generator (c) 2..5 instances following each other in one engine, each with a context of its own that is cancelled before the next is created, in the same instant or 1..6 simulated ms later, ids collected from Process.Id and NewFlowTrace.",
         "oracle": "pairwise distinctness over the whole run + race detector",
     },
     "C15": {
@@ -119,7 +119,7 @@ PROPS = {
     },
     "C17": {
         "level": "exploration", "quick_s": 60, "thorough_s": 1200, "thorough_seeds": 4, "race": True, "race_clause": "C17/data-race",
-        "rule": "scenarios of the C01, C03, C04, C06, C08, C10 and C11 families in the race build, with additional client goroutines: subscribers that join, read a few traces and leave again and again, readers of Locator().CloneVariables/CloneItems/GetVariable woken on every trace, every Do call from its own goroutine, extra WaitUntilComplete callers; the race detector runs inside the simulation with the scheduler hand-off hidden (RaceDisable brackets), reports count if the innermost frame of one access lies in a non-test file of the module; panics in any simulated goroutine are captured; the family's own oracle must still accept the outcome; distinct = schedule hash; non-trivial = a context switch",
+        "rule": "scenarios of the C01, C03, C04, C06, C08, C10 and C11 families in the race build, with additional client goroutines: subscribers that join, read a few traces and leave again and again, readers of Locator().CloneVariables/CloneItems/GetVariable woken on every trace, every Do call from its own goroutine, extra WaitUntilComplete callers; the race detector runs inside the simulation with the scheduler hand-off hidden (RaceDisable brackets), reports count if the innermost frame of one access lies in a non-test file of the module; panics in any simulated goroutine are captured; the family's own oracle must still accept the outcome; distinct = schedule hash; non-trivial = a context switch Further families: C04, C05, C14, timer catch events on a jumped mock clock, process sets; stress subscribers of odd index keep one channel and join with it again and again.",
         "oracle": "Go race detector inside the simulation + panic capture + the family's sequential-semantics oracle",
     },
 }
